@@ -31,6 +31,19 @@ func checkLen[T constraints.Unsigned](n int) error {
 	return nil
 }
 
+// claimed converts a length or count read from the wire to int after checking that the
+// buffer still holds the n*minSize bytes it announces, so that a hostile prefix cannot make a
+// reader reserve memory for data that is not there (minSize 0: only the int range is checked).
+func claimed[T constraints.Unsigned](buf *bytes.Buffer, n T, minSize int) (int, error) {
+	if uint64(n) > uint64(^uint(0)>>1) {
+		return 0, io.ErrUnexpectedEOF
+	}
+	if minSize > 0 && uint64(n) > uint64(buf.Len())/uint64(minSize) {
+		return 0, io.ErrUnexpectedEOF
+	}
+	return int(n), nil
+}
+
 func WriteBasicType[T BasicType](buf *bytes.Buffer, v T) error {
 	return binary.Write(buf, binary.BigEndian, &v)
 }
@@ -88,10 +101,13 @@ func ReadBasicTypeList[T constraints.Unsigned, K BasicType](buf *bytes.Buffer) (
 	if err := binary.Read(buf, binary.BigEndian, &t); err != nil {
 		return nil, err
 	}
-	count := int(t)
+	var k K
+	count, err := claimed(buf, t, binary.Size(k))
+	if err != nil {
+		return nil, err
+	}
 
 	result := make([]K, 0, count)
-	var err error
 	for i := 0; i < count; i++ {
 		v, e := ReadBasicType[K](buf)
 		if e != nil {
@@ -107,10 +123,13 @@ func ReadBasicTypeListLE[T constraints.Unsigned, K BasicType](buf *bytes.Buffer)
 	if err := binary.Read(buf, binary.LittleEndian, &t); err != nil {
 		return nil, err
 	}
-	count := int(t)
+	var k K
+	count, err := claimed(buf, t, binary.Size(k))
+	if err != nil {
+		return nil, err
+	}
 
 	result := make([]K, 0, count)
-	var err error
 	for i := 0; i < count; i++ {
 		v, e := ReadBasicTypeLE[K](buf)
 		if e != nil {
@@ -156,10 +175,13 @@ func ReadString[T constraints.Unsigned](buf *bytes.Buffer) (string, error) {
 	if err := binary.Read(buf, binary.BigEndian, &t); err != nil {
 		return "", err
 	}
-	length := int(t)
+	length, err := claimed(buf, t, 1)
+	if err != nil {
+		return "", err
+	}
 
 	strBytes := make([]byte, length)
-	_, err := io.ReadFull(buf, strBytes)
+	_, err = io.ReadFull(buf, strBytes)
 	return string(strBytes), err
 }
 
@@ -168,10 +190,13 @@ func ReadStringLE[T constraints.Unsigned](buf *bytes.Buffer) (string, error) {
 	if err := binary.Read(buf, binary.LittleEndian, &t); err != nil {
 		return "", err
 	}
-	length := int(t)
+	length, err := claimed(buf, t, 1)
+	if err != nil {
+		return "", err
+	}
 
 	strBytes := make([]byte, length)
-	_, err := io.ReadFull(buf, strBytes)
+	_, err = io.ReadFull(buf, strBytes)
 	return string(strBytes), err
 }
 
@@ -284,10 +309,12 @@ func ReadFixedStringListTrimPadding[T constraints.Unsigned](buf *bytes.Buffer, f
 	if err := binary.Read(buf, binary.BigEndian, &t); err != nil {
 		return nil, err
 	}
-	count := int(t)
+	count, err := claimed(buf, t, fixedLen)
+	if err != nil {
+		return nil, err
+	}
 
-	result := make([]string, 0, count)
-	var err error
+	result := make([]string, 0, min(count, buf.Len()))
 	for i := 0; i < count; i++ {
 		str, e := ReadFixedStringTrimPadding(buf, fixedLen, padChar, padLeft)
 		if e != nil {
@@ -307,10 +334,12 @@ func ReadFixedStringListTrimPaddingLE[T constraints.Unsigned](buf *bytes.Buffer,
 	if err := binary.Read(buf, binary.LittleEndian, &t); err != nil {
 		return nil, err
 	}
-	count := int(t)
+	count, err := claimed(buf, t, fixedLen)
+	if err != nil {
+		return nil, err
+	}
 
-	result := make([]string, 0, count)
-	var err error
+	result := make([]string, 0, min(count, buf.Len()))
 	for i := 0; i < count; i++ {
 		str, e := ReadFixedStringTrimPadding(buf, fixedLen, padChar, padLeft)
 		if e != nil {
@@ -376,7 +405,11 @@ func ReadStringListLE[T constraints.Unsigned, K constraints.Unsigned](buf *bytes
 	if err := binary.Read(buf, binary.LittleEndian, &t); err != nil {
 		return nil, err
 	}
-	count := int(t)
+	var k0 K
+	count, err := claimed(buf, t, binary.Size(k0))
+	if err != nil {
+		return nil, err
+	}
 
 	result := make([]string, 0, count)
 	for i := 0; i < count; i++ {
@@ -384,7 +417,10 @@ func ReadStringListLE[T constraints.Unsigned, K constraints.Unsigned](buf *bytes
 		if err := binary.Read(buf, binary.LittleEndian, &k); err != nil {
 			return nil, err
 		}
-		length := int(k)
+		length, err := claimed(buf, k, 1)
+		if err != nil {
+			return nil, errors.New("incomplete string bytes")
+		}
 
 		strBytes := make([]byte, length)
 		n, err := buf.Read(strBytes)
@@ -402,7 +438,11 @@ func ReadStringList[T constraints.Unsigned, K constraints.Unsigned](buf *bytes.B
 	if err := binary.Read(buf, binary.BigEndian, &t); err != nil {
 		return nil, err
 	}
-	count := int(t)
+	var k0 K
+	count, err := claimed(buf, t, binary.Size(k0))
+	if err != nil {
+		return nil, err
+	}
 
 	result := make([]string, 0, count)
 	for i := 0; i < count; i++ {
@@ -410,7 +450,10 @@ func ReadStringList[T constraints.Unsigned, K constraints.Unsigned](buf *bytes.B
 		if err := binary.Read(buf, binary.BigEndian, &k); err != nil {
 			return nil, err
 		}
-		length := int(k)
+		length, err := claimed(buf, k, 1)
+		if err != nil {
+			return nil, errors.New("incomplete string bytes")
+		}
 
 		strBytes := make([]byte, length)
 		n, err := buf.Read(strBytes)
@@ -447,9 +490,12 @@ func ReadObjectList[T constraints.Unsigned, K BinaryCodec](buf *bytes.Buffer, ne
 	if err := binary.Read(buf, binary.BigEndian, &t); err != nil {
 		return nil, err
 	}
-	count := int(t)
+	count, err := claimed(buf, t, 0)
+	if err != nil {
+		return nil, err
+	}
 
-	result := make([]K, 0, count)
+	result := make([]K, 0, min(count, buf.Len()))
 	for i := 0; i < count; i++ {
 		k := newFn()
 		if e := k.Decode(buf); e != nil {
@@ -484,9 +530,12 @@ func ReadObjectListLE[T constraints.Unsigned, K BinaryCodec](buf *bytes.Buffer, 
 	if err := binary.Read(buf, binary.LittleEndian, &t); err != nil {
 		return nil, err
 	}
-	count := int(t)
+	count, err := claimed(buf, t, 0)
+	if err != nil {
+		return nil, err
+	}
 
-	result := make([]K, 0, count)
+	result := make([]K, 0, min(count, buf.Len()))
 	for i := 0; i < count; i++ {
 		k := newFn()
 		if e := k.Decode(buf); e != nil {
